@@ -264,7 +264,10 @@ fn check_c14(g: &G, sel: u64, mut vd: Verdict) -> Verdict {
         // cut inside open call parentheses: every '(' still open (the call's own, nested groups in
         // argument text, expression parentheses) gets its zero-width ')' at end of input
         let (off, open, calls, text_groups) = g.trunc_points[pick - g.dels.len() - rparens.len()];
-        let m = src[..off].to_string();
+        // sometimes an earlier, closed statement with a fault of its own precedes the cut program: what was diagnosed
+        // there must not change how the parentheses still open at the end are diagnosed
+        const FAULTY_PREFIXES: &[&str] = &["%put %upcase x);", "%let a 1;", "%put %scan(a 1);", "%put %eval 1);\n", "%put %str a);"];
+        let m = if (sel >> 3) % 4 == 0 { vd.label("earlier-fault-before-cut"); format!("{}{}", FAULTY_PREFIXES[(sel as usize >> 5) % FAULTY_PREFIXES.len()], &src[..off]) } else { src[..off].to_string() };
         vd.key = m.clone();
         vd.label(format!("truncated-inside-parens:open={}", open.min(6)));
         let r = match lex(Variant::Rel, &m) {
